@@ -1,0 +1,40 @@
+//go:build verif
+
+package httpx
+
+// Contracts for the deductive verifier in /verif (govc). Comment-only file: adds no code.
+
+// Parse: path, form, header and (when the request carries one) the JSON body are all applied to the same
+// destination, in this order; the first error stops and is returned - no later part is applied after a failure.
+//@ func Parse
+//@   prop C05
+//@   opaque ParsePath, ParseForm, ParseHeaders, ParseJsonBody
+//@   ensures [path-first] calls(ParsePath, r, v) == 1
+//@   ensures [path-error-stops] ret(ParsePath) != nil ==> result == ret(ParsePath) && calls(ParseForm) == 0 && calls(ParseHeaders) == 0 && calls(ParseJsonBody) == 0
+//@   ensures [form-error-stops] ret(ParsePath) == nil && ret(ParseForm) != nil ==> result == ret(ParseForm) && calls(ParseHeaders) == 0 && calls(ParseJsonBody) == 0
+//@   ensures [header-error-stops] ret(ParsePath) == nil && ret(ParseForm) == nil && ret(ParseHeaders) != nil ==> result == ret(ParseHeaders) && calls(ParseJsonBody) == 0
+//@   ensures [all-four-parts] ret(ParsePath) == nil && ret(ParseForm) == nil && ret(ParseHeaders) == nil ==> calls(ParseForm, r, v) == 1 && calls(ParseHeaders, r, v) == 1 && calls(ParseJsonBody, r, v) == 1 && result == ret(ParseJsonBody) && before(ParsePath, ParseForm) && before(ParseForm, ParseHeaders) && before(ParseHeaders, ParseJsonBody)
+// ParsePath: every path variable bound by the router is offered to the unmarshaler under its own name and value.
+//@ func ParsePath
+//@   prop C05
+//@   opaque Vars, Unmarshal
+//@   loop 1 iteration-ensures [variable-copied-verbatim] has(m, k) && typeis(m[k], string) && unbox(m[k], string) == v
+//@   ensures [unmarshalled-by-path-tags] calls(pathUnmarshaler.Unmarshal) == 1 && arg(pathUnmarshaler.Unmarshal, 1) == local(m) && result == ret(Unmarshal)
+// ParseJsonBody: a JSON request body (positive length, JSON content type) is decoded - bounded to maxBodyLen - into
+// the destination; otherwise the destination is still validated against an empty document (so required json
+// fields are reported missing).
+//@ func ParseJsonBody
+//@   prop C05
+//@   opaque withJsonBody, UnmarshalJsonReader, UnmarshalJsonMap
+//@   requires r != nil
+//@   ensures [body-decoded] ret(withJsonBody) ==> calls(mapping.UnmarshalJsonReader) == 1 && arg(mapping.UnmarshalJsonReader, 0) == ret(io.LimitReader) && arg(mapping.UnmarshalJsonReader, 1) == v && arg(io.LimitReader, 0) == r.Body && result == ret(mapping.UnmarshalJsonReader)
+//@   ensures [no-body-validated-against-empty] !ret(withJsonBody) ==> calls(mapping.UnmarshalJsonMap) == 1 && arg(mapping.UnmarshalJsonMap, 0) == nil && arg(mapping.UnmarshalJsonMap, 1) == v && result == ret(mapping.UnmarshalJsonMap)
+//@ func withJsonBody
+//@   prop C05
+//@   requires r != nil
+//@   ensures [needs-length-and-json-type] result == (r.ContentLength > 0 && ret(strings.Contains)) || r.ContentLength <= 0 && !result
+//@ func ParseForm
+//@   prop C05
+//@   opaque GetFormValues, Unmarshal
+//@   ensures [form-error] ret(GetFormValues, 1) != nil ==> result == ret(GetFormValues, 1) && calls(Unmarshal) == 0
+//@   ensures [unmarshalled-by-form-tags] ret(GetFormValues, 1) == nil ==> calls(formUnmarshaler.Unmarshal) == 1 && arg(formUnmarshaler.Unmarshal, 1) == ret(GetFormValues, 0) && arg(formUnmarshaler.Unmarshal, 2) == v && result == ret(Unmarshal)
